@@ -430,8 +430,7 @@ class Printer:
         """the value of an expression computed from erased numerics: nondeterministic (sound over-approximation)"""
         self.check_pure(n, why)
         if getattr(self, 'drop_guard', None) is not None:
-            for c in n.get('inner', []):
-                self.drop_guard(self, c, why)       # opt-in (frame proofs): nothing the spec maps may hide inside an erased expression
+            self.drop_guard(self, n, why)           # opt-in (frame proofs): nothing the spec maps may hide inside an erased expression
         line = n.get('range', {}).get('begin', {}).get('line', '?')
         self.erased.append(f'line {line}: {why}')
         self.note('auto-havoc: ' + why.split(':')[0])
